@@ -240,6 +240,23 @@ def rand_run(rng, fmt, kind, *, calls=None, iters=None, value_classes=None, dist
     if cb is not None and cb[0] == 'builtin' and rng.random() < 0.5:
         # the callback instantiated with the checkpoint's base class (without the engine), as the library's examples do
         s.insert(-1, ['cbbase', 1]); classes.append('callback_on_base_class')
+    if rng.random() < 0.2:
+        # while a point is evaluated the integrand runs a small integration of its own (same integrator, same template instantiation)
+        s.insert(-1, ['nest', 1]); classes.append('nested_integration')
+    if rng.random() < 0.2:
+        s.insert(-1, ['errno', 1]); classes.append('integrand_leaves_errno_EDOM')
+    if kind == 'mc' and rng.random() < 0.4:
+        # the map writes the densities in the coordinate call already (as the library's examples do)
+        s.insert(-1, ['mapearly', 1]); classes.append('map_writes_densities_early')
+    if rng.random() < 0.3:
+        # the state the user's streams are in when they are handed to the library: float-field flags, precision, showpoint, alignment
+        # (the library sets what it needs itself), and an input stream that reports errors by exceptions
+        s.insert(-1, ['ofmt', rng.choice([1, 2, 3, 1 + 4, 8, 16 + 1, 64, 128 + 3])]); classes.append('user_stream_format')
+    if rng.random() < 0.25:
+        s.insert(-1, ['iexc', 1]); classes.append('input_stream_with_exceptions')
+    if cb is not None and cb[0] == 'builtin' and rng.random() < 0.4:
+        # std::cout as the program left it (precision max_digits10, fixed, showpoint) when the verbose callback prints
+        s.insert(-1, ['coutfmt', rng.choice([256, 256 + 1, 8, 1 + 4, 16 + 256, 3])]); classes.append('cout_format_changed')
     if cb is not None and cb[0] == 'builtin' and rng.random() < 0.5:
         # one callback object for all the runs of the case (std::ref) instead of a fresh copy per run
         s.insert(-1, ['cbref', 1]); classes.append('callback_object_shared_between_runs')
@@ -248,6 +265,7 @@ def rand_run(rng, fmt, kind, *, calls=None, iters=None, value_classes=None, dist
 KINDS = ['plain', 'vegas', 'mc']
 # structure sizes far above what ordinary cases use: around powers of two (index types, buffers) and odd ones (halving schemes)
 BIG_COUNTS = [65, 100, 129, 130, 255, 256, 257, 300, 515, 700, 1001]
+HUGE_COUNTS = [4096, 4097, 5000, 65537]        # only for operations that are linear in the size
 
 def small_bins(s):
     """the executed model refines the grid once per rank: keep default grids small in MPI cases (cost ~ ranks x dims x bins^2)"""
@@ -262,7 +280,11 @@ def mpi_variant(rng, s, info, worlds=(2, 3, 5, 8)):
             out.append(['ops', [(['mpi', op[1], P, perm] if op[0] == 'run' else op) for op in e[1]]])
         else:
             out.append(e)
-    return out, ['mpi_shim', 'world_%d' % P]
+    cl = ['mpi_shim', 'world_%d' % P]
+    if rng.random() < 0.4:
+        # the integration runs on a communicator that is a proper part of MPI_COMM_WORLD (its rank 0 is not world rank 0, the world is larger)
+        out.insert(len(out) - 1, ['subcomm', rng.choice([1, 2, 5])]); cl.append('sub_communicator')
+    return out, cl
 
 def big_run(rng, fmt, kind, *, dims=1, bins=4, channels=2, iters=2, calls=(6,), ndists=0, dist_bins=(3, 1), ops_fn=None, trace=0):
     """a run whose structure sizes are chosen by the caller (polynomial integrand, default checkpoint, grid map)"""
@@ -277,6 +299,28 @@ def big_run(rng, fmt, kind, *, dims=1, bins=4, channels=2, iters=2, calls=(6,), 
     ops = ops_fn(cl_calls) if ops_fn else [['run', cl_calls], ['dump']]
     s = spec_run(kind, fmt, dims=dims, channels=channels if kind == 'mc' else 1, seed=rng.getrandbits(32), chk=chk, f=f, dists=dl, fills=fills, tables=[], mp=mp, trace=trace, ops=ops)
     return s, {'kind': kind, 'dims': dims, 'channels': channels if kind == 'mc' else 1, 'calls': cl_calls}
+
+def gen_wide_return(c, rng, tier):
+    """a user function whose return type is wider than the numeric type (float integration of a function returning long double): the
+    library converts the value to its numeric type first and works with that - the value table of the model holds the rounded values"""
+    wide = FMTS['l']
+    for t in ['f', 'd']:
+        fmt = FMTS[t]
+        for _ in range(scale(tier, 4, 30)):
+            dims = rng.choice([1, 2]); bins = rng.choice([2, 3, 5])
+            xs = []
+            for d in range(dims): xs += rand_grid(rng, fmt, bins, rng.choice(['random', 'peaked']))
+            vals = []
+            for _ in range(rng.choice([3, 7])):
+                r = rng.random()
+                if r < 0.15: vals.append(Fraction(0))
+                elif r < 0.25: vals.append(Fraction(rng.randint(1, 9), 4))
+                else: vals.append(wide.round(Fraction(rng.getrandbits(62) | 1, 2 ** 61) * Fraction(2) ** rng.randint(-8, 8) * rng.choice([1, -1])))
+            calls = [rng.choice([6, 12]) for _ in range(rng.choice([2, 3]))]
+            s = spec_run('vegas', fmt, dims=dims, seed=rng.getrandbits(32), chk=['pdf', bins, dims, toks(fmt, xs), fmt.rtok(Fraction(3, 2))],
+                         f=['tab', toks(fmt, [fmt.round(v) for v in vals])], ops=[['run', calls], ['dump']])
+            s.insert(-1, ['fwide', toks(wide, vals)])
+            c.add(t, 'run', s, classes=['kind_vegas', 'function_returns_wider_type', 'chk_user_grid'], nontrivial=True, info={'kind': 'vegas', 'dims': dims, 'channels': 1, 'calls': calls})
 
 def gen_sizes(c, rng, tier, t, families, ops_fn=None, per=1):
     """structure sizes far above the ordinary cases: around powers of two (narrow index types, small buffers) and odd (halving schemes)"""
@@ -335,7 +379,7 @@ def gen_C16_mpi(c, rng, tier):
     for t in ['d', 'f']:
         fmt = FMTS[t]
         for kind in KINDS:
-            for _ in range(scale(tier, 3, 20)):
+            for _ in range(scale(tier, 5, 20)):
                 iters = rng.choice([1, 2, 3])
                 s, cl, info = rand_run(rng, fmt, kind, iters=iters, calls=[1, 2, 5, 7, 11, 16], poly=True, finite_only=True, dists=[], trace=1, cb=['script', []], grid_map=True)
                 calls = info['calls']
@@ -343,8 +387,9 @@ def gen_C16_mpi(c, rng, tier):
                 ops = [['mpi', calls, P, perm], ['dump']]
                 if rng.random() < 0.5:
                     ops += [['mpi', calls[:1], P, perm], ['dump']]          # resume from the returned checkpoint
-                s = small_bins([e for e in s if e[0] != 'ops'] + [['ops', ops]])
-                c.add(t, 'run', s, classes=cl + ['mpi_driver', 'world_%d' % P], info=info)
+                sub = [['subcomm', rng.choice([1, 2, 4])]] if rng.random() < 0.5 else []     # the integration's communicator is a proper part of the world
+                s = small_bins([e for e in s if e[0] != 'ops'] + sub + [['ops', ops]])
+                c.add(t, 'run', s, classes=cl + ['mpi_driver', 'world_%d' % P] + (['sub_communicator'] if sub else []), info=info)
 
 @prop('C09', 'weight vectors (zeros front/middle/end, normalised or not, length 1..12) x canonical numbers at 0, pred(1), every '
       'cumulative boundary and both neighbours, plus random; 3 types; non-trivial = vector has a zero weight or the number is a boundary',
@@ -369,10 +414,11 @@ def gen_C09(c, rng, tier):
                 cl = ['boundary' if u in cum else 'zero' if u == 0 else 'other'] + (['has_zero_weight'] if any(w == 0 for w in ws) else [])
                 c.add(t, 'select', [toks(fmt, ws), fmt.tok(u)], classes=cl, nontrivial=(u in cum or any(w == 0 for w in ws)))
         # long weight vectors (sizes beyond any index type narrower than size_t, beyond small-buffer and guide-table thresholds)
-        for n in rng.sample(BIG_COUNTS, scale(tier, 3, len(BIG_COUNTS))):
-            ws = rand_weights(rng, fmt, n)
+        for n in rng.sample(BIG_COUNTS, scale(tier, 3, len(BIG_COUNTS))) + [rng.choice(HUGE_COUNTS[:3] if tier == 'quick' else HUGE_COUNTS)]:
+            equal = rng.random() < 0.5
+            ws = [Fraction(1)] * n if equal else rand_weights(rng, fmt, n)      # (equal weights: what every run starts with)
             for i in range(n):
-                if rng.random() < 0.2: ws[i] = Fraction(0)
+                if not equal and rng.random() < 0.2: ws[i] = Fraction(0)
             if rng.random() < 0.5: ws[0] = Fraction(0)
             if all(w == 0 for w in ws): ws[n // 2] = Fraction(1)
             cum = oracles.cumulative(fmt, ws)
@@ -385,6 +431,15 @@ def gen_C09(c, rng, tier):
             for u in us:
                 c.add(t, 'select', [toks(fmt, ws), fmt.tok(u)], classes=['long_weight_vector', 'boundary' if u in cum else 'zero' if u == 0 else 'other', 'has_zero_weight'],
                       nontrivial=True)
+        # thousands of equal weights (what every run starts with): every cumulative boundary with its two lower neighbours
+        for n in [rng.choice(HUGE_COUNTS[:3])] + (HUGE_COUNTS[:3] if tier == 'thorough' else []):
+            ws = [Fraction(1)] * n
+            cum = oracles.cumulative(fmt, ws)
+            us = []
+            for s in cum[:-1]:
+                p1 = fmt.pred(s); p2 = fmt.pred(p1)
+                us += [v for v in (p2, p1, s) if isnum(v) and 0 <= v < 1 and (v * 2 ** 64).denominator == 1]
+            c.add(t, 'selects', [toks(fmt, ws), toks(fmt, us)], classes=['long_weight_vector', 'all_boundaries', 'equal_weights'], nontrivial=True)
     gen_C09_runs(c, rng, tier)
 
 def gen_C09_runs(c, rng, tier):
@@ -645,6 +700,7 @@ def gen_C02(c, rng, tier):
                 s, cl2 = mpi_variant(rng, s, info)
                 c.add(t, 'run', s, classes=cl + cl2, nontrivial=any(x >= 2 for x in info['calls']), info=info)
     for t in TYPES: gen_sizes(c, rng, tier, t, ['dims', 'dists', 'iterations'])
+    gen_wide_return(c, rng, tier)
 
 @prop('C06', 'paired runs (poisoned / zeroed twin) over 2-4 adaptive iterations; NaN, +inf, -inf from the integrand, from the fill value and from the weight '
       '(infinite jacobian, zero density sum); all three integrators and types; non-trivial = at least one non-finite and one finite evaluation',
@@ -667,6 +723,7 @@ def gen_C06(c, rng, tier):
                                        value_classes=['small_int', 'nan', 'inf', 'ninf', 'zero', 'frac'], special_map=(kind == 'mc'))
                 s, cl2 = mpi_variant(rng, s, info, worlds=(2, 3, 5))
                 c.add(t, 'run', s, classes=cl + cl2 + ['poisoned'], info=info)
+    gen_wide_return(c, rng, tier)
 
 @prop('C10', 'runs of the three integrators with every value pattern, grid and weight vector: the number of raw draws taken from the scripted 64-bit engine '
       'and the stored generator positions are compared with the model; the predictor random_number_usage is compared with the measured draws of all nine '
@@ -682,14 +739,13 @@ def gen_C10(c, rng, tier):
                 if rng.random() < 0.25:
                     s, cl3 = mpi_variant(rng, s, info); cl = cl + cl3          # every rank ends at the serial generator position
                 c.add(t, 'run', s, classes=cl, nontrivial=(kind == 'mc' or any('value_nan' == x or 'value_inf' == x for x in cl)), info=info)
-    for b, l in itertools.product([24, 53, 64], [1, 2, 8, 16, 24, 30, 31, 32, 48, 63, 64]):
-        c.add('d', 'usage', [b, l], classes=['usage_k'], model_only=True)
     for t in TYPES: gen_sizes(c, rng, tier, t, ['dims', 'channels'])
 
 @prop('C11', '1-d and 2-d binnings (negative, tiny, huge, non-unit ranges) with coordinates interior / on every edge / +-1 ulp / outside / +-inf / NaN / 2^70, '
       'several distributions per integrand, the same distribution filled twice, fill values from tables; three integrators and types; '
       'non-trivial = at least one distribution', COMMON_ASSUMPTIONS)
 def gen_C11(c, rng, tier):
+    PROPS['C11']['mpi'] = True
     for t in TYPES:
         fmt = FMTS[t]
         for kind in KINDS:
@@ -698,6 +754,12 @@ def gen_C11(c, rng, tier):
                 s, cl, info = rand_run(rng, fmt, kind, dists=dl, calls=[5, 9, 24], iters=rng.choice([1, 2]), trace=1,
                                        wants=(1 if kind == 'mc' and rng.random() < 0.6 else None), value_classes=['small_int', 'frac', 'neg', 'zero', 'nan'])
                 c.add(t, 'run', s, classes=cl + (['two_d'] if any(d[1] > 1 for d in dl) else []), info=info)
+            for _ in range(scale(tier, 2, 16)):
+                # the MPI drivers: every rank must return the distributions of the whole iteration (all ranks' fills reduced)
+                dl = rand_dists(rng, fmt, n=rng.choice([1, 2]))
+                s, cl, info = rand_run(rng, fmt, kind, dists=dl, calls=[9, 24], iters=rng.choice([1, 2]), value_classes=['small_int', 'frac', 'neg', 'zero'], finite_only=True)
+                s, cl2 = mpi_variant(rng, s, info, worlds=(2, 3, 5))
+                c.add(t, 'run', s, classes=cl + cl2 + ['distributions_on_every_rank'], info=info)
         for _ in range(scale(tier, 10, 60)):
             d = rand_dists(rng, fmt, n=1, two_d=True)[0]
             c.add(t, 'midpoints', d[:6], classes=['midpoints'])
@@ -950,7 +1012,10 @@ def gen_C20(c, rng, tier):
             s = spec_run('mc', fmt, dims=1, channels=n, seed=rng.getrandbits(32), chk=['weights', toks(fmt, ws), fmt.rtok(0), fmt.rtok(Fraction(1, 4))],
                          f=['tab', toks(fmt, [Fraction(1), Fraction(2), Fraction(0)])], mp=rand_map_tab(rng, fmt, n),
                          cb=['builtin', rng.choice([2, 3]), fmt.rtok(0)], ops=[['run', [rng.choice([10, 100, 1000 if n < 8 else 50])] * 2], ['dump'], ['maxdiff']])
-            c.add(t, 'run', s, classes=['summary', 'pattern_' + pat, 'channels_%s' % ('1' if n == 1 else 'few' if n < 13 else 'many')], nontrivial=n >= 2)
+            fm = []
+            if rng.random() < 0.5:
+                s.insert(-1, ['coutfmt', rng.choice([256, 256 + 1, 8, 1 + 4, 16 + 256, 3])]); fm = ['cout_format_changed']
+            c.add(t, 'run', s, classes=['summary', 'pattern_' + pat, 'channels_%s' % ('1' if n == 1 else 'few' if n < 13 else 'many')] + fm, nontrivial=n >= 2)
 
 def history_ops(rng, calls, with_rollback):
     """operation history built from run(m), reload, rollback(k), resume"""
@@ -998,6 +1063,17 @@ def gen_C03(c, rng, tier):
                     s = [e for e in s0 if e[0] != 'ops'] + [['ops', ops]]
                     c.add(t, 'run', s, classes=cl + ['cuts_%d' % sum(cuts)], resume_group=group, nontrivial=sum(cuts) > 0, info=info)
     gen_C03_target(c, rng, tier)
+    for t in TYPES:
+        fmt = FMTS[t]
+        for kind in KINDS:
+            for _ in range(scale(tier, 2, 10)):
+                # the MPI drivers with the callback in a writing mode: the file is written by rank 0 of the communicator of the integration
+                # (which need not be rank 0 of the world) and a run resumed from the returned checkpoint continues the stream
+                s, cl, info = rand_run(rng, fmt, kind, iters=3, calls=[6, 10], cb=['builtin', rng.choice([1, 3]), fmt.rtok(0)], finite_only=True, poly=True, dists=[])
+                calls = info['calls']
+                P = rng.choice([2, 3, 5]); perm = list(range(P)); rng.shuffle(perm)
+                s = small_bins([e for e in s if e[0] not in ('ops', 'subcomm')]) + [['subcomm', rng.choice([0, 1, 3])], ['ops', [['mpi', calls[:2], P, perm], ['reload'], ['mpi', calls[2:], P, perm], ['text']]]]
+                c.add(t, 'run', s, classes=cl + ['mpi_shim', 'world_%d' % P, 'callback_writes_file_under_mpi'], info=info)
     for t in TYPES: gen_sizes(c, rng, tier, t, ['iterations', 'bins'], ops_fn=lambda cs: [['run', cs[:len(cs) // 2]], ['reload'], ['run', cs[len(cs) // 2:]], ['text']])
 
 def gen_C03_target(c, rng, tier):
@@ -1182,6 +1258,7 @@ def gen_C01(c, rng, tier):
                     n = bm ** dims * cm
                     s = spec_run('mc', fmt, dims=dims, channels=channels, raw=raws, chk=['weights', [fmt.rtok(w) for w in ws], fmt.rtok(minw), fmt.rtok(Fraction(1, 4))],
                                  f=f, mp=rand_map_grid(rng, fmt, channels, dims, dyadic=aligned), ops=[['run', [n]], ['dump']])
+                    if rng.random() < 0.5: s.insert(-1, ['mapearly', 1])      # the map writes its densities in the coordinate call already (as the examples do)
                     c.add(t, 'run', s, classes=['lattice_mc', 'channels_%d' % channels] + (['minimum_weight_active'] if minw else []) + (['aligned_channel_grids'] if aligned else []),
                           nontrivial=channels >= 2, lattice={'kind': 'mc', 'n': n, 'exact': (aligned or sum(1 for w in ws if w) == 1) and (bool(minw) or all((4 * w / sum(ws)).denominator == 1 for w in ws))})
                 else:
@@ -1195,6 +1272,26 @@ def gen_C01(c, rng, tier):
                         chk = ['plain']
                     s = spec_run(kind, fmt, dims=dims, raw=raws, chk=chk, f=f, ops=[['run', [n]], ['dump']])
                     c.add(t, 'run', s, classes=['lattice_' + kind], nontrivial=(kind == 'vegas'), lattice={'kind': kind, 'n': n})
+        # multi-channel lattice runs with disabled channels and a map that writes all densities in the coordinate call (as the library's
+        # examples do) and only returns the jacobian when asked for densities
+        for _ in range(scale(tier, 3, 20)):
+            dims = 1; bm = 32; cm = 4; f = rand_poly(rng, fmt, dims)
+            channels = rng.choice([2, 3, 4])
+            ks = [rng.choice([0, 0, 1, 2]) for _ in range(channels)]
+            if sum(ks) == 0: ks[rng.randrange(channels)] = 2
+            if all(ks): ks[rng.randrange(channels)] = 0
+            ks = [k * 4 // sum(ks) if (k * 4) % sum(ks) == 0 else k for k in ks]
+            ws = [Fraction(k) for k in ks]
+            raws = []
+            for u in [Fraction(2 * j + 1, 2 * bm) for j in range(bm)]:
+                for uc in [Fraction(2 * j + 1, 2 * cm) for j in range(cm)]:
+                    raws += [raw_of(u), raw_of(uc)]
+            n = bm * cm
+            s = spec_run('mc', fmt, dims=dims, channels=channels, raw=raws, chk=['weights', [fmt.rtok(w) for w in ws], fmt.rtok(0), fmt.rtok(Fraction(1, 4))],
+                         f=f, mp=rand_map_grid(rng, fmt, channels, dims, dyadic=True), wants=(1 if rng.random() < 0.5 else 0), ops=[['run', [n]], ['dump']])
+            s.insert(-1, ['mapearly', 1])
+            c.add(t, 'run', s, classes=['lattice_mc', 'channels_%d' % channels, 'disabled_channel', 'map_writes_densities_early', 'aligned_channel_grids'],
+                  lattice={'kind': 'mc', 'n': n, 'exact': all((4 * w / sum(ws)).denominator == 1 for w in ws)})
         # VEGAS lattice runs on grids adapted by real refinements: two adaptive iterations on pseudo-random numbers, then the lattice
         for _ in range(scale(tier, 3, 20)):
             dims = rng.choice([1, 2]); bm = 8 if dims == 2 else 32
@@ -1242,7 +1339,11 @@ def gen_C04(c, rng, tier):
                     pre = [rng.choice([3, 6])]
                     ops += [['run', pre], ['reload']]; cl.append('resumed_checkpoint')
                 s0 = small_bins(s0)
-                s = [e for e in s0 if e[0] != 'ops'] + [['ops', ops + [['mpi', calls, P, perm], ['text']]]]
+                sub = []
+                if rng.random() < 0.35:
+                    # the communicator of the integration is a proper part of the world: rank r is world rank r + k, the world is larger
+                    sub = [['subcomm', rng.choice([1, 2, 3, 7])]]; cl.append('sub_communicator')
+                s = [e for e in s0 if e[0] != 'ops'] + sub + [['ops', ops + [['mpi', calls, P, perm], ['text']]]]
                 info = dict(info); info['calls'] = calls; info['world'] = P; info['poly'] = poly; info['pre'] = ops
                 cid = c.add(t, 'run', s, classes=cl + cl2 + ['world_%s' % ('1' if P == 1 else 'small' if P < 8 else 'large'),
                                                          'calls_lt_world' if any(0 < x < P for x in calls) else 'calls_ge_world',
